@@ -41,6 +41,8 @@
 #include "ola/io/MemoryBuffer.h"
 #include <errno.h>
 #include <fcntl.h>
+#include <pthread.h>
+#include <set>
 #include <sys/uio.h>
 #include <unistd.h>
 #define private public
@@ -138,11 +140,15 @@ static void be_write(T *buf, unsigned w, unsigned long long v) {
   else out << static_cast<uint32_t>(v);
 }
 
+// The destination is an exact-size heap array (ASan sees any overrun).  For lengths far beyond what the
+// buffer can hold (UINT_MAX ...) the array is only `avail + 64` bytes: a correct implementation never
+// writes more than `avail`, an incorrect one runs into the redzone.
 template <typename T>
-static string read_mem(T *buf, unsigned n) {
-  uint8_t *dst = new uint8_t[n];
+static string read_mem(T *buf, unsigned n, size_t avail) {
+  size_t cap = std::min(static_cast<size_t>(n), avail + 64);
+  uint8_t *dst = new uint8_t[cap];
   unsigned r = buf->Read(dst, n);
-  string s = r > n ? string("OVERRUN") : vh::hex(dst, r);
+  string s = (r > n || r > cap) ? string("OVERRUN") : vh::hex(dst, r);
   delete[] dst;
   return s;
 }
@@ -176,7 +182,7 @@ static string membuf(const string &hexdata, const string &script) {
     if (calls[k].empty()) continue;
     unsigned n = vh::num(calls[k].substr(1));
     if (k) out += ".";
-    if (calls[k][0] == 'r') out += read_mem(&mb, n);
+    if (calls[k][0] == 'r') out += read_mem(&mb, n, e.n);
     else if (calls[k][0] == 's') {
       ola::io::BigEndianInputStream in(&mb);
       string o("zz");
@@ -227,7 +233,7 @@ static string crosspool(const vector<string> &a) {
     vh::Exact e(d);
     qa.Write(e.p, e.n);
     qb.AppendMove(&qa);
-    string got = read_mem(&qb, vh::num(a[4]));
+    string got = read_mem(&qb, vh::num(a[4]), qb.Size());
     res << "class=" << a[0] << ";read=" << got << ";A=" << A.BlocksAllocated() << "," << A.FreeBlocks()
         << ";B=" << B.BlocksAllocated() << "," << B.FreeBlocks() << "," << qb.m_blocks.size();
     B.Purge();
@@ -236,17 +242,79 @@ static string crosspool(const vector<string> &a) {
   return res.str();
 }
 
+// ---- pools that are alive right now, over all threads ('T' payloads): a default-constructed buffer
+// must own a pool nobody else uses
+static pthread_mutex_t g_pool_mu = PTHREAD_MUTEX_INITIALIZER;
+static std::multiset<const void*> g_live_pools;
+static bool g_pool_shared = false;
+static void pool_live(const void *p, bool on) {
+  pthread_mutex_lock(&g_pool_mu);
+  if (on) {
+    if (g_live_pools.count(p)) g_pool_shared = true;
+    g_live_pools.insert(p);
+  } else {
+    std::multiset<const void*>::iterator it = g_live_pools.find(p);
+    if (it != g_live_pools.end()) g_live_pools.erase(it);
+  }
+  pthread_mutex_unlock(&g_pool_mu);
+}
+
+static string handle_impl(const vector<string> &a, bool thr);
+
+// "T<label> <threads> <reps> ops": every thread runs the history <reps> times, each time on its OWN
+// freshly default-constructed IOQueue q0 and IOStack s0 (each owns a private pool of 1024-byte blocks).
+// Every run in every thread must give the trace the model gives (a correct tree can never fail this;
+// on a tree where the buffers share hidden state, detection of the interference is probabilistic,
+// the pool-identity check `distinct` is deterministic).
+struct ThrArg { const vector<string> *a; unsigned reps; vector<string> out; volatile int *go; };
+static void *thr_main(void *p) {
+  ThrArg *t = static_cast<ThrArg*>(p);
+  while (!*t->go) {}
+  for (unsigned r = 0; r < t->reps; r++) t->out.push_back(handle_impl(*t->a, true));
+  return NULL;
+}
+static string threaded(const vector<string> &a) {
+  if (a.size() < 3) return "bad-payload";
+  unsigned nt = vh::num(a[1]), reps = vh::num(a[2]);
+  g_pool_shared = false;
+  volatile int go = 0;
+  vector<ThrArg> args(nt);
+  vector<pthread_t> th(nt);
+  for (unsigned t = 0; t < nt; t++) { args[t].a = &a; args[t].reps = reps; args[t].go = &go; }
+  for (unsigned t = 0; t < nt; t++) pthread_create(&th[t], NULL, thr_main, &args[t]);
+  go = 1;
+  for (unsigned t = 0; t < nt; t++) pthread_join(th[t], NULL);
+  string base = args[0].out.empty() ? string("class=") + a[0] : args[0].out[0];
+  string verdict = "ok";
+  for (unsigned t = 0; t < nt && verdict == "ok"; t++)
+    for (unsigned r = 0; r < args[t].out.size(); r++)
+      if (args[t].out[r] != base) { verdict = "MISMATCH-thread" + vh::str(t) + "-rep" + vh::str(r); break; }
+  return base + ";threads=" + verdict + ";distinct=" + (g_pool_shared ? "0" : "1");
+}
+
 static string handle(const string &payload) {
   vector<string> a = vh::split(payload);
   if (!a.empty() && a[0][0] == 'P') return crosspool(a);
-  if (a.size() < 4) return "bad-payload";
-  const bool ext = a[0][0] == 'X';
-  const bool multi = a[0][0] == 'C';   // "<Clabel> <bsA> <bsB> <qmask> <smask> ops": two pools
-  const size_t first = (ext || multi) ? 5 : 4;
+  if (!a.empty() && a[0][0] == 'T') return threaded(a);
+  return handle_impl(a, false);
+}
+
+static string handle_impl(const vector<string> &a, bool thr) {
+  if (a.size() < (thr ? 3 : 4)) return "bad-payload";
+  const bool ext = !thr && a[0][0] == 'X';
+  const bool multi = thr || a[0][0] == 'C';   // "<Clabel> <bsA> <bsB> <qmask> <smask> ops": two pools
+  const size_t first = thr ? 3 : (ext || multi) ? 5 : 4;
   if (a.size() < first || (ext && vh::num(a[2]) < 1)) return "bad-payload";
   World w;
-  w.pool = new MemoryBlockPool(vh::num(a[1]));
-  if (multi) {
+  if (thr) {
+    w.q.push_back(new IOQueue()); w.qpool.push_back(0);
+    w.s.push_back(new IOStack()); w.spool.push_back(1);
+    pool_live(w.q[0]->m_pool, true);
+    pool_live(w.s[0]->m_pool, true);
+  } else {
+    w.pool = new MemoryBlockPool(vh::num(a[1]));
+  }
+  if (multi && !thr) {
     w.pool2 = new MemoryBlockPool(vh::num(a[2]));
     for (size_t i = 0; i < a[3].size() && a[3] != "-"; i++) {
       w.qpool.push_back(a[3][i] - 'A');
@@ -280,20 +348,26 @@ static string handle(const string &payload) {
       if (op == "qw") w.q[x]->Write(e.p, e.n); else w.s[x]->Write(e.p, e.n);
     } else if (op == "qb") { be_write(w.q[x], n, vh::num(f[3]));
     } else if (op == "sb") { be_write(w.s[x], n, vh::num(f[3]));
-    } else if (op == "qr") { ret = read_mem(w.q[x], n);
-    } else if (op == "sr") { ret = read_mem(w.s[x], n);
+    } else if (op == "qr") { ret = read_mem(w.q[x], n, w.q[x]->Size());
+    } else if (op == "sr") { ret = read_mem(w.s[x], n, w.s[x]->Size());
     } else if (op == "qs") { ret = read_str(w.q[x], n);
     } else if (op == "ss") { ret = read_str(w.s[x], n);
     } else if (op == "qk") {
-      uint8_t *dst = new uint8_t[n];
+      size_t cap = std::min(static_cast<size_t>(n), static_cast<size_t>(w.q[x]->Size()) + 64);
+      uint8_t *dst = new uint8_t[cap];
       unsigned r = w.q[x]->Peek(dst, n);
-      ret = r > n ? string("OVERRUN") : vh::hex(dst, r);
+      ret = (r > n || r > cap) ? string("OVERRUN") : vh::hex(dst, r);
       delete[] dst;
     } else if (op == "qp") { w.q[x]->Pop(n);
     } else if (op == "sp") { w.s[x]->Pop(n);
     } else if (op == "qm") { w.q[x]->AppendMove(w.q[n]);
     } else if (op == "sm") { w.s[x]->MoveToIOQueue(w.q[n]);
     } else if (op == "qc") { w.q[x]->Clear();
+    } else if (op == "sd" && thr) {
+      pool_live(w.s[x]->m_pool, false);
+      delete w.s[x];
+      w.s[x] = new IOStack();
+      pool_live(w.s[x]->m_pool, true);
     } else if (op == "sd") {
       delete w.s[x];
       w.s[x] = new IOStack(multi && w.spool[x] == 1 ? w.pool2 : w.pool);
@@ -325,7 +399,7 @@ static string handle(const string &payload) {
       res << ";o" << (k - first) << "=" << ret << spec.str() << "/held-nonempty" << (nonempty ? 1 : 0);
       res << ";a" << (k - first) << "=";
       for (int pk = 0; pk < 2; pk++) {
-        MemoryBlockPool *pp = pk ? w.pool2 : w.pool;
+        MemoryBlockPool *pp = thr ? (pk ? w.s[0]->m_pool : w.q[0]->m_pool) : (pk ? w.pool2 : w.pool);
         unsigned held = 0;
         for (size_t i = 0; i < w.q.size(); i++) if (w.qpool[i] == pk) held += w.q[i]->m_blocks.size();
         for (size_t j = 0; j < w.s.size(); j++) if (w.spool[j] == pk) held += w.s[j]->m_blocks.size();
@@ -339,6 +413,10 @@ static string handle(const string &payload) {
         << ",held-nonempty" << (nonempty ? 1 : 0);
     if (ext) res << "/assoc" << (w.sender->m_associated ? 1 : 0) << ",reg" << (w.ss->registered ? 1 : 0);
     res << ";i" << (k - first) << "=" << inner.str() << "/free" << fr << ",alloc" << al;
+  }
+  if (thr) {
+    pool_live(w.q[0]->m_pool, false);
+    pool_live(w.s[0]->m_pool, false);
   }
   return res.str();
 }
